@@ -138,6 +138,8 @@ type fgen struct {
 	freshRefs     map[string]bool // refs allocated by this function
 	fullHavocs    []*fullHavoc // unbounded-frame calls seen so far
 	factSeen      map[string]bool
+	constSort     map[string]string // declared constants and their sorts
+	curClosure    *ssa.MakeClosure // the closure value being called (its bindings)
 	witTerms      []val // instantiation hints of the contract (witness clauses)
 	intKeys       map[string]intInfo // heap keys whose cells hold a machine integer type
 	quantReqs     []quantAssumed
@@ -152,6 +154,10 @@ func (g *fgen) declare(name, sort string) {
 		return
 	}
 	g.declared[name] = true
+	if g.constSort == nil {
+		g.constSort = map[string]string{}
+	}
+	g.constSort[name] = sort
 	g.emit(fmt.Sprintf("(declare-const %s %s)", name, sort))
 	if len(name) > 1 && name[0] == 'H' {
 		g.heapTyping(name, sort)
@@ -395,7 +401,7 @@ func (g *fgen) arrToSMT(a *types.Array, v string) string {
 
 // wf returns well-formedness facts for a term of type t (ranges, slice shape, refs allocated).
 func (g *fgen) wf(t string, typ types.Type, alloc string, depth int) string {
-	if typ == tMathInt {
+	if typ == tMathInt || typ == tRef {
 		return "true"
 	}
 	switch u := typ.Underlying().(type) {
@@ -965,6 +971,7 @@ func (g *fgen) oblige(kind, label, goal string, pos token.Pos) {
 		}
 		g.lines = g.lines[:n]
 	}
+	extra = append(extra, g.goalTermInstances(goal)...)
 	base := fmt.Sprintf("%s.%s#%s", shortPkg(g.pkgPath), g.key, kind)
 	if label != "" {
 		base += ":" + label
